@@ -112,6 +112,14 @@ def run(ctx: core.Ctx) -> int:
                 for key in ("a", "b"):
                     if s["analysis"].get(key) in ("a", "b"):
                         s["analysis"][key] = "close" if key == "a" else "open"
+        if not as_hexital and k % 5 == 4:
+            # an indicator whose reading is legitimately None on every candle (its input never appears):
+            # stored None readings count as computed and must not be recomputed on each append
+            specs = [rng.choice([
+                {"kind": "AMORPH", "analysis": {"f": rng.choice(["highest", "lowest", "value_range"]), "name": "nosuch", "length": 4}, "kw": {}, "round_value": 4},
+                {"kind": "STDEV", "kw": {"period": 5, "input_value": "nosuch"}, "round_value": 4},
+                {"kind": "SMA", "kw": {"period": 5, "input_value": "nosuch"}, "round_value": 4}])]
+            kind = "always-None"
         base = X.gen_rows(rng, max(sizes), regime="walk", late=0)
         for r in base:
             r["inds"] = {}
